@@ -21,7 +21,7 @@ fn seqs(tier: Tier) -> Vec<TokenSeqs> {
         ],
         Tier::Thorough => vec![
             TokenSeqs { alphabet: TOKENS.to_vec(), max_len: 6 },
-            TokenSeqs { alphabet: TOKENS_SMALL.to_vec(), max_len: 8 },
+            TokenSeqs { alphabet: TOKENS_SMALL.to_vec(), max_len: 7 },
         ],
     }
 }
@@ -177,7 +177,7 @@ impl Prop for C05 {
                 "a postfix operator may follow a prefix expression once (`- a ++ ++`), as in the engine's grammar; no property sentence defines it".into(),
             ],
             exhaustive: true,
-            bound: format!("<= {} tokens over {} spellings; <= {} over the 15-spelling sub-alphabet; <= {} fragments; edit distance 1", tier.pick(5, 6), TOKENS.len(), tier.pick(6, 8), tier.pick(4, 5)),
+            bound: format!("<= {} tokens over {} spellings; <= {} over the 15-spelling sub-alphabet; <= {} fragments; edit distance 1", tier.pick(5, 6), TOKENS.len(), tier.pick(6, 7), tier.pick(4, 5)),
             states_note: "states = inputs enumerated (nodes of the token / fragment trees + corrupted programs); transitions = one-token extensions or single edits".into(),
         }
     }
@@ -194,6 +194,7 @@ impl Prop for C05 {
         if stage < sq.len() {
             let name = format!("tokens{}", stage);
             for i in a..b {
+            out.idx = Some(i);
                 let spaced = sq[stage].spaced(i);
                 judge(&spaced, &ops, &name, out);
                 track(&spaced, out);
@@ -212,6 +213,7 @@ impl Prop for C05 {
         if stage == sq.len() {
             let sw = sweep(tier);
             for i in a..b {
+            out.idx = Some(i);
                 let s = sw.get(i);
                 judge(&s, &ops, "strings", out);
                 track(&s, out);
@@ -222,6 +224,7 @@ impl Prop for C05 {
         }
         let progs = corruption_programs(tier);
         for i in a..b {
+            out.idx = Some(i);
             let p = &progs[i as usize];
             if !judge(p, &ops, "corruptions", out) {
                 out.fail("generator:valid-program-rejected-by-model", format!("corruptions|{}", show(p)), "model rejects a generated program");
